@@ -1,6 +1,6 @@
 INIT ScenInit
 NEXT ScenNext
 CONSTANTS
-  Sizes = {1, 2, 50, 1000, 12345, 99999, 100000}
+  Sizes = {1, 2, 50, 128, 1000, 1024, 3840, 12345, 65536, 99999, 100000}
 INVARIANT EmitScen
 CHECK_DEADLOCK FALSE
